@@ -105,6 +105,8 @@ def binop(op, a, b, ty):
             return ite(a.args[0], binop(op, a.args[1], b, ty), binop(op, a.args[2], b, ty))
         if b.op == 'ite' and a.op == 'const' and const_tree(b):
             return ite(b.args[0], binop(op, a, b.args[1], ty), binop(op, a, b.args[2], ty))
+        if a.op == 'ite' and b.op == 'ite' and const_tree(a) and const_tree(b):
+            return ite(a.args[0], binop(op, a.args[1], b, ty), binop(op, a.args[2], b, ty))
     if op in ('fmul', 'fdiv'):
         # sign extraction (exact in IEEE-754: the sign of a product/quotient is the xor of the
         # operand signs): (-a)*b = -(a*b), a*(-c) = -(a*c) for constants c with the sign bit set.
